@@ -818,6 +818,74 @@ def derive_inert_checks(ctx, cases):
                                   dict(m, reencoded=jsonable(ez), fresh=jsonable(e0)))
 
 
+def open_type_histories(ctx):
+    """The value of an open-type member held three ways - as typed value objects, as ANY values holding the inner DER, and
+    as what decoding with the open types resolved returns - is one abstract value: identical DER (and CER where the F01
+    class is not involved).  Members: ANY / [0] IMPLICIT ANY / [1] EXPLICIT ANY, alone and as elements of SET OF /
+    SEQUENCE OF; inner types with lists nested one and two levels down."""
+    from pyasn1.type import namedtype, opentype, tag as _tag
+    so_int = univ.SequenceOf(componentType=univ.Integer())
+    rec2 = univ.Sequence(componentType=namedtype.NamedTypes(namedtype.NamedType('a', univ.SequenceOf(componentType=univ.OctetString())), namedtype.NamedType('b', univ.Integer())))
+    sos = univ.SetOf(componentType=univ.SequenceOf(componentType=univ.Boolean()))
+    inner_types = {1: so_int, 2: rec2, 3: sos, 4: univ.Integer()}
+    def inner_value(g, j):
+        if g == 1:
+            v = so_int.clone(); v.extend([1 + j, 300]); return v
+        if g == 2:
+            v = rec2.clone(); v['a'].extend([b'x', b'yz'][:1 + j]); v['b'] = 5 + j; return v
+        if g == 3:
+            v = sos.clone()
+            for row in ([True], [False, True])[:1 + j]:
+                e = v.componentType.clone(); e.extend(row); v.append(e)
+            return v
+        return univ.Integer(7 + j)
+    taggings = [('ANY', univ.Any()), ('[0] IMPLICIT ANY', univ.Any().subtype(implicitTag=_tag.Tag(128, 0, 0))),
+                ('[1] EXPLICIT ANY', univ.Any().subtype(explicitTag=_tag.Tag(128, 32, 1)))]
+    der = I.ENC['DER']
+    for base_cls in (univ.Sequence, univ.Set):
+        for tname, anyT in taggings:
+            for lname, mk in ((None, None), ('SET OF', univ.SetOf), ('SEQUENCE OF', univ.SequenceOf)):
+                member = anyT if mk is None else mk(componentType=anyT)
+                spec = base_cls(componentType=namedtype.NamedTypes(
+                    namedtype.NamedType('id', univ.Integer()),
+                    namedtype.NamedType('blob', member, openType=opentype.OpenType('id', inner_types))))
+                for g in inner_types:
+                    if base_cls is univ.Set and tname == 'ANY' and mk is None:
+                        continue          # an untagged ANY beside another member of a SET is outside the universe (it is the tag map's catch-all)
+                    inners = [inner_value(g, j) for j in range(2 if mk is not None else 1)]
+                    desc = '%s { id INTEGER, blob %s%s DEFINED BY id }, id = %d' % (base_cls.__name__.upper(), (lname + ' ') if lname else '', tname, g)
+                    for cdc in ('DER', 'CER', 'BER'):
+                        if cdc == 'CER' and (g == 4 and tname.startswith('[1]')):
+                            continue      # EXPLICIT tag directly over a primitive in indefinite mode: finding F01
+                        typed = spec.clone(); typed['id'] = g
+                        blobs = spec.clone(); blobs['id'] = g
+                        try:
+                            # the ANY values hold the inner encoding of the same codec (to the record they are opaque octets)
+                            if mk is None:
+                                typed['blob'] = inners[0]
+                                blobs['blob'] = anyT.clone(I.ENC[cdc].encode(inners[0]))
+                            else:
+                                for x in inners:
+                                    typed['blob'].append(x)
+                                    blobs['blob'].append(anyT.clone(I.ENC[cdc].encode(x)))
+                        except error.PyAsn1Error:
+                            ctx.stats['open-type histories: typed assignment refused'] += 1
+                            continue
+                        a, b = I.run_encode(cdc, typed)[:2], I.run_encode(cdc, blobs)[:2]
+                        ctx.case(('open-history', desc, cdc), True)
+                        ctx.stats['open-type histories'] += 1
+                        m = {'record': desc, 'codec': cdc, 'typed': jsonable(a), 'as ANY values': jsonable(b)}
+                        if a != b:
+                            ctx.prop_fail('%s of an open-type member held as typed values differs from the same held as ANY values' % cdc, m)
+                            continue
+                        if a[0] == 'ok' and cdc != 'BER':
+                            d = I.run_decode(cdc, a[1], asn1Spec=spec, decodeOpenTypes=True)
+                            if d[0] == 'ok':
+                                r = I.run_encode(cdc, d[1])[:2]
+                                if r != a:
+                                    ctx.prop_fail('re-encoding (%s) the record decoded with its open types resolved does not reproduce the encoding' % cdc, dict(m, reencoded=jsonable(r)))
+
+
 def fixed_orders(ctx):
     """deterministic histories: every position of a SEQUENCE OF / SET OF first assigned in descending order,
     directly and through an element built in place, against the ascending twin"""
@@ -886,7 +954,7 @@ def run(ctx):
                 'explicit or left out, SEQUENCE OF/SET OF positions assigned in a random order by s[i]= / setComponentByPosition after an appended prefix, record members built in place through s[i][name]=, parts decoded from indefinite/chunked BER or CER/DER forms, clone(cloneValueFlag=True), interleaved '
                 'encode/print/iterate/len/compare/getComponentBy*(instantiate=False and True) reads and derivations of retagged/re-constrained types by clone(...)/subtype(...)); every 5th history may also enter the '
                 'classes of the open findings F18a/F18d/F18j; compared: DER and CER of both, a second encode, re-encoding of the decoded DER/CER; '
-                'plus, per case: clone(cloneValueFlag=True) then an in-place edit at least one level down in the clone (resp. the original) with the other side compared to its snapshot (DER, CER, content, members), and DEFAULT constructed components read, edited in place, then the type\'s DEFAULT, a fresh instance and the DER round trip checked; and per case: other types derived from the value, then the value, its clone and a value decoded with it as guiding object re-encoded; non-trivial = constructed type with at least 2 recorded history steps')
+                'plus, per case: clone(cloneValueFlag=True) then an in-place edit at least one level down in the clone (resp. the original) with the other side compared to its snapshot (DER, CER, content, members), and DEFAULT constructed components read, edited in place, then the type\'s DEFAULT, a fresh instance and the DER round trip checked; and per case: other types derived from the value, then the value, its clone and a value decoded with it as guiding object re-encoded; open-type members (ANY / IMPLICIT / EXPLICIT ANY, alone and in SET OF / SEQUENCE OF) held as typed values, as ANY values and as decoded with resolution on; non-trivial = constructed type with at least 2 recorded history steps')
     dcases = constructed_default_cases(ctx, ctx.n(40, 400))
     ctx.stats['cases with a DEFAULT component of constructed type'] = len(dcases)
     cases = targeted() + dcases + codec.gen_cases(ctx, ctx.n(150, 2500), depth=3)
@@ -897,6 +965,7 @@ def run(ctx):
     aliasing_checks(ctx, cases)
     reads_inert_checks(ctx, cases)
     derive_inert_checks(ctx, cases)
+    open_type_histories(ctx)
     for n, c in enumerate(cases):
         for rep in range(2 if base_desc(c.T)[0] in CONSTRUCTED else 1):
             check_case(ctx, c, wild=(n % 5 == 4 and rep == 1), exprs=exprs, meta=meta)
